@@ -385,6 +385,15 @@ func generate(c *drv.Ctx) {
 		}
 		c.Case(descEnum(ps, perms(len(ps)), []string{"/v1/acme/builds", "/a/q", "/q/b", "/q/c", "/f/a/b"}, "ab/x", 3))
 	}
+	// (iv) NUL bytes: in static patterns (served from a map, accepted), in parameterised patterns (Build must reject:
+	// CHECK 0 marks the unused slots of the double-array, D55), and in looked-up paths at literal and parameter positions
+	nulPaths := []string{"/a\x00b", "/a/\x00", "/\x00", "\x00", "/a/\x00b", "/a/b\x00", "/a/\x00/b", "/\x00/ab", "/a\x00/q", "/q/a\x00b", "/a/q\x00"}
+	c.Case(desc([]Pat{mkPat([]string{"a\x00b"}, false), mkPat([]string{"a", ":x"}, false), mkPat([]string{":y", "ab"}, false)}, perms(3), nulPaths))
+	c.Case(desc([]Pat{mkPat([]string{"a", ":x", "b"}, false), mkPat([]string{":x", ":y", "ab"}, false), mkPat([]string{"b", ""}, false), mkPat([]string{":y", "ab", "ab"}, false)}, perms(4),
+		append([]string{"/=a/ab/\x00ab", "/a/ab/\x00ab", "/a/\x00/b", "/a/q/\x00b"}, nulPaths...)))
+	c.Case(desc([]Pat{mkPat([]string{"\x00", ":x"}, false), mkPat([]string{"a"}, false)}, perms(2), []string{"/\x00/q", "/a"}))
+	c.Case(desc([]Pat{mkPat([]string{"a\x00b", ":x"}, false), mkPat([]string{"a"}, false)}, perms(2), []string{"/a\x00b/q", "/a"}))
+	c.Case(desc([]Pat{mkPat([]string{"f", "*w"}, false), mkPat([]string{"n\x00", "*v"}, false)}, perms(2), []string{"/f/a", "/n\x00/a"}))
 	// (iii) tables Build must reject: duplicate parameter names
 	for _, segs := range [][]string{{":x", ":x"}, {"a", ":x", "b", ":x"}, {":x", "*x"}} {
 		c.Case(desc([]Pat{mkPat(segs, false), mkPat([]string{"a"}, false)}, perms(2), []string{"/a"}))
@@ -494,7 +503,7 @@ func instantiate(c *drv.Ctx, p Pat, alpha string) string {
 
 func mutate(c *drv.Ctx, s string) string {
 	b := []byte(s)
-	const inject = "/:*#=ab"
+	const inject = "/:*#=ab\x00\x00\x01\xff"
 	switch c.Rng.Intn(5) {
 	case 0:
 		if len(b) > 0 {
